@@ -167,8 +167,9 @@ def canonical(img, n):
     return all(w < Q for w in conv.raws(img[:n]))
 
 
-def capi(lib, name, out_size, *bufs, restype=None):
-    """Call a C API symbol with byte images copied to aligned scratch; first arg is the output."""
+def capi(lib, name, out_size, *bufs, restype=None, same_object=False):
+    """Call a C API symbol with byte images copied to aligned scratch; first arg is the output. same_object: the two inputs are
+    passed as one object (same pointer twice)."""
     f = getattr(lib.dll, API + name)
     f.restype = restype
     blocks = [lib.A, lib.B, lib.C]
@@ -177,6 +178,9 @@ def capi(lib, name, out_size, *bufs, restype=None):
         lib.O.fill(0xCD, out_size)
         args.append(lib.O.ptr)
     for i, b in enumerate(bufs):
+        if same_object and i == 1:
+            args.append(blocks[0].ptr)
+            continue
         blocks[i].write(b)
         args.append(blocks[i].ptr)
     rv = f(*args)
@@ -233,12 +237,16 @@ def check(ctx, lib, c):
             expect(g1 == e1, sig + "/after-related-call", lambda: "P=%r zP=%r Q=%r, then the same call with %s (z=%r): got %r expected %r" % (P, zP, Qp, what, zt, g1, e1))
         ctx.event("related-follow-up")
 
+    # two operands with identical bytes are, on half of those cases, one object passed twice (p.add(q, q), equal(q, q))
+    same_object = PA == QA and op in ("add", "equal") and bool(PA[5] & 1)
+    if same_object:
+        cls += ":same-object"
     if op == "add":
         exp = C.add(P, Qp, K)
         if use_c:
-            rv, out = capi(lib, gs + "_add", psz, PA, QA)
+            rv, out = capi(lib, gs + "_add", psz, PA, QA, same_object=same_object)
         else:
-            rv, out = lib.op(gs + "_add", PA, QA)
+            rv, out = lib.op(gs + "_add", PA, QA, alias="b=a" if same_object else None)
         got = b_proj(g, out)
     elif op == "add_mixed":
         exp = C.add(P, Qp, K)
@@ -265,12 +273,12 @@ def check(ctx, lib, c):
     elif op == "equal":
         e = 1 if P == Qp else 0
         if use_c:
-            rv, _ = capi(lib, gs + "_equal", 0, PA, QA, restype=ctypes.c_bool)
+            rv, _ = capi(lib, gs + "_equal", 0, PA, QA, restype=ctypes.c_bool, same_object=same_object)
             rv = 1 if rv else 0
         else:
             lib.A.write(PA)
             lib.B.write(QA)
-            rv = lib.fn("vf_g_equal")(g, 0, lib.A.ptr, lib.B.ptr)
+            rv = lib.fn("vf_g_equal")(g, 0, lib.A.ptr, lib.A.ptr if same_object else lib.B.ptr)
         ctx.count(c, nontriv, cls)
         expect(rv == e, sig, lambda: "P=%r zP=%r Q=%r zQ=%r got=%d expected=%d" % (P, zP, Qp, zQ, rv, e))
         return
